@@ -307,7 +307,7 @@ func (g *gen) genString(typs []types.Type) error {
 	p.P("func %s(f func(rune) %s, ss string) []%s {", name, outStr, outStr)
 	p.In()
 	p.P("out := make([]%s, len([]rune(ss)))", outStr)
-	p.P("for i, elem := range ss {")
+	p.P("for i, elem := range []rune(ss) {")
 	p.In()
 	p.P("out[i] = f(elem)")
 	p.Out()
